@@ -299,6 +299,51 @@ pub fn c07(r: &mut Rng, out: &mut Out, n: usize) {
             );
         }
     }
+    // the top of the range: an end point that rounds to exactly Float::MAX while the exact result lies above it must still
+    // be pushed outwards (to infinity); the same at the bottom
+    for j in 0..(n / 48 + 18) {
+        let form = C07_FORMS[j % 18];
+        let top = step_ulps(Float::MAX, -(r.below(3) as i64));
+        let sgn = r.sign();
+        let a = match r.below(3) {
+            0 => (sgn * top, sgn * top),
+            1 => {
+                if sgn > 0. {
+                    (r.nice(10.), top)
+                } else {
+                    (-top, r.nice(10.))
+                }
+            }
+            _ => {
+                if sgn > 0. {
+                    (step_ulps(top, -2), top)
+                } else {
+                    (-top, -step_ulps(top, -2))
+                }
+            }
+        };
+        let small = |r: &mut Rng| -> Float {
+            match r.below(4) {
+                0 => r.nice(10.),
+                1 => r.logmag(1e-6, 1e6),
+                2 => Float::MAX * Float::EPSILON * (r.range(0.001, 0.2) as Float) * r.sign(),
+                _ => 1.0 + r.range(0., 1e-9),
+            }
+        };
+        let b0 = small(r);
+        let b = match r.below(3) {
+            0 => (b0, b0),
+            1 => (b0.min(0.), b0.max(0.) + small(r).abs()),
+            _ => (b0, step_ulps(b0, 1 + r.below(3) as i64)),
+        };
+        let b = if form.starts_with("div") && b.0 <= 0. && b.1 >= 0. { (b0.abs().max(1e-3), b0.abs().max(1e-3)) } else { b };
+        let a = if form == "sqrt" && a.0 < 0. { (0., top) } else { a };
+        c07_one(out, form, a, b, small(r));
+        if j % 6 == 0 {
+            out.case(&format!("nu {}", hx(sgn * top)), &hx(verif_next_float_up(sgn * top)));
+            out.case(&format!("nd {}", hx(sgn * top)), &hx(verif_next_float_down(sgn * top)));
+        }
+    }
 }
 
 // ---------------------------------------------------------------------------------------------
@@ -422,6 +467,31 @@ pub fn transform_chain(r: &mut Rng) -> (Transform, String) {
         return any_chain(r, 6, 1e3);
     }
     let up = r.bool();
+    if !up && r.below(3) == 0 {
+        // six shrinking scalings and nothing else: the determinant is of the order of 1e-18 (far below machine epsilon) and,
+        // with an odd number of mirrored axes, negative
+        let mut t = Transform::new();
+        let mut parts: Vec<String> = vec![];
+        let mirrored = r.below(6);
+        for i in 0..6 {
+            let m = r.pick(&[0.1, 0.1, 0.125]) as Float;
+            let (sx, sy, sz) = if i == mirrored {
+                match r.below(4) {
+                    0 => (-m, m, m),
+                    1 => (m, -m, m),
+                    2 => (m, m, -m),
+                    _ => (-m, -m, -m),
+                }
+            } else if r.below(5) == 0 {
+                (-m, -m, m)
+            } else {
+                (m, m, m)
+            };
+            t *= Transform::scale(sx, sy, sz);
+            parts.push(format!("S {} {} {}", hx(sx), hx(sy), hx(sz)));
+        }
+        return (t, format!("{} {}", parts.len(), parts.join(" ")));
+    }
     let k = 3 + r.below(3);
     let mut t = Transform::new();
     let mut parts: Vec<String> = vec![];
